@@ -112,7 +112,7 @@ func c11Run(j vs.Job) *vs.JobResult {
 		b, _ := json.Marshal(j.Replay.Detail)
 		var wp wParams
 		json.Unmarshal(b, &wp)
-		w, res := runWorld(wp, vs.Config{Trace: true}, j.Replay.Choices, nil, nil)
+		w, res := runWorld(wp, vs.Config{Trace: true, ClockChoice: p.Sched > 0}, j.Replay.Choices, j.Replay.Ns, nil)
 		v, o := c11Oracle(w, res)
 		r.Notes = append(r.Notes, res.Sched.Trace...)
 		r.Notes = append(r.Notes, fmt.Sprintf("outcome=%s srvDone=%v@%v cliDone=%v@%v srvErr=%q said=%q exit=%q cfail=%q sfail=%q alive=%v", o, res.SrvDone, res.SrvDoneAt, res.CliDone, res.CliDoneAt, clipStr(res.SrvErr, 200), serverSaid(res.SrvStdout), res.ClientExit, clipStr(res.ClientFail, 200), clipStr(res.ServerFail, 200), res.Alive))
